@@ -405,6 +405,56 @@ class HavocSet:
     def issubset(self, o):
         return all(x in HavocSet(o) for x in self._items)
 
+    def issuperset(self, o):
+        return all(x in self for x in o)
+
+    def isdisjoint(self, o):
+        return not any(x in self for x in o)
+
+    def update(self, *others):
+        for o in others:
+            for x in o:
+                self.add(x)
+
+    def intersection_update(self, *others):
+        self._items = self.intersection(*others)._items
+
+    def difference_update(self, *others):
+        self._items = self.difference(*others)._items
+
+    def symmetric_difference(self, o):
+        o = HavocSet(o)
+        return self._new([x for x in self._items if x not in o] + [x for x in o._items if x not in self])
+
+    def copy(self):
+        return self._new(self._items)
+
+    def clear(self):
+        self._items = []
+
+    def pop(self):
+        # an ARBITRARY element (the first of an arbitrary iteration order)
+        for x in self:
+            self.discard(x)
+            return x
+        raise KeyError("pop from an empty set")
+
+    def __ior__(self, o):
+        self.update(o)
+        return self
+
+    def __iand__(self, o):
+        self.intersection_update(o)
+        return self
+
+    def __isub__(self, o):
+        self.difference_update(o)
+        return self
+
+    __xor__ = lambda self, o: self.symmetric_difference(o)
+    __le__ = lambda self, o: self.issubset(o)
+    __ge__ = lambda self, o: self.issuperset(o)
+
     def __eq__(self, o):
         return isinstance(o, HavocSet) and len(o) == len(self) and self.issubset(o)
 
